@@ -55,6 +55,8 @@ func main() {
 					cases = append(cases, g.dfuncCase(i))
 				case "incl":
 					cases = append(cases, g.inclCase(i))
+				case "late":
+					cases = append(cases, g.lateCase(i))
 				case "sequence", "concurrent":
 					cases = append(cases, g.multiCase(i, *prof))
 				case "extreme":
